@@ -10,10 +10,11 @@ func init() {
 		r.Explanation = "Structural necessary conditions of completeness, decided for all inputs at once: " +
 			"(C07-a) in the pre-scan every rule peer is an ipBlock (skipped), cluster-wide (recorded) or appended to the selector list; a representative peer is generated for every selector pair; both directions are scanned under policyAffectsDirection; " +
 			"(C07-b) the representative key is computed from exactly the two selectors stored in the peer; " +
-			"(C07-c) representative peers are deleted only in removeRepresentativePeersMatchingLabels and only under the full documented condition (no matchExpressions in either selector, non-empty selectors, both matching); " +
+			"(C07-c) representative peers are deleted only in removeRepresentativePeersMatchingLabels and the removal decision - the append to the keys to delete, a delete inside the loop over the map, or a positive answer of the predicate given to maps.DeleteFunc, with a multi-statement boolean helper contributing what all its positive answers entail - has a path condition that entails the six documented facts (canonical atoms by the selector FIELD a tested value derives from); " +
 			"(C07-d) the suppression test reaches PortSet.ContainedIn, which consults named ports of both sides; " +
 			"(C07-e) SelectorsFullMatch answers false only after the empty-rule-selector row is ruled out. " +
 			"(C07-f) the stored per-policy exposure sets, from which every selected workload's exposure is derived, are modified only by their owner functions and only ever hold fresh sets (a query for one workload that rewrites a policy's stored set loses the other workloads' entries). " +
+			"(C07-g) every negative answer of includePairWithRepresentativePeer is given on a path that entails one of the three documented cases (both ends representative; a representative with an IP block; a representative with the ingress controller) - an entailment on path conditions, not a reading of the if-statements. " +
 			"NOT decided: SelectorsFullMatch semantics in general; coverage for arbitrary hypothetical pods."
 		rules.RulePeerClassification(p, r, "C07-a")
 		rules.RepresentativeKey(p, r, "C07-b")
